@@ -576,10 +576,13 @@ def run_bounded(ctx):
             for k in range(split):
                 tasks.append((root, "foreign:" + f, ctx.tier, (k, split) if split > 1 else None))
         workers = min(16, os.cpu_count() or 4)
-        with cf.ProcessPoolExecutor(max_workers=workers) as ex:
-            results = list(ex.map(run_dataset, tasks))
+        from runtime.harness import robust_map, WorkerDied
+        results = robust_map(run_dataset, tasks, workers)
+        for k, r in enumerate(results):
+            if isinstance(r, WorkerDied):      # the real library killed the process: a failing case, not a checker crash
+                results[k] = [({"ds": tasks[k][1], "kind": "process died"}, False, r.what(), True, None)]
     for res in results:
         for feats, ok, what, nontrivial, F in res:
-            with Case(ctx, G, feats, snippet=None if ok else _snippet(feats["ds"], F), nontrivial=nontrivial, contract=CONTRACT) as c:
+            with Case(ctx, G, feats, snippet=None if ok or F is None else _snippet(feats["ds"], F), nontrivial=nontrivial, contract=CONTRACT) as c:
                 if not ok:
                     c.fail(what)
